@@ -54,12 +54,20 @@ DoStart(r) ==
     /\ last' = [h \in DOMAIN hw |-> (r.t :> Unpinned) @@ last[h]]
     /\ UNCHANGED <<hw, aff0, seen>>
 
+\* "refused" (optional field): the harness kernel was told to refuse this thread's next sched_setaffinity. The call
+\* cannot succeed (it panics; a silent return would claim a pin that did not happen) and nothing changes: the thread
+\* keeps the OS affinity and the "last pin" it had, and every later answer is judged against those.
+Refused(r) == "refused" \in DOMAIN r /\ r.refused
+
 DoPin(r) ==
     LET S == ToSet(r.s) IN
     /\ S # {} /\ S \subseteq IdsOf(hw[r.h].procs)                        \* stimulus sanity (else the walk stops)
-    /\ IF r.panic = "" THEN TRUE ELSE Reject("pin-panic", r)
-    /\ os' = [os EXCEPT ![r.h] = (r.t :> S) @@ @]
-    /\ last' = [last EXCEPT ![r.h] = (r.t :> PinnedTo(S)) @@ @]
+    /\ IF Refused(r)
+       THEN /\ IF r.panic # "" THEN TRUE ELSE Reject("refused-pin-reported-as-done", r)
+            /\ UNCHANGED <<os, last>>
+       ELSE /\ IF r.panic = "" THEN TRUE ELSE Reject("pin-panic", r)
+            /\ os' = [os EXCEPT ![r.h] = (r.t :> S) @@ @]
+            /\ last' = [last EXCEPT ![r.h] = (r.t :> PinnedTo(S)) @@ @]
     /\ UNCHANGED <<hw, aff0, seen>>
 
 \* f: function t -> value, extended by the children (value Val(child record))
@@ -79,6 +87,7 @@ DoSpawn(r) ==
                  ELSE Len(kids) = 1 /\ ToSet(kids[1].gset) = S
         OsVal(h, kd) == IF h = r.h THEN ToSet(kd.gset)
                         ELSE IF hw[h].kind = "R" THEN os[h][r.t]     \* a new thread inherits the real affinity
+                        ELSE IF hw[h].kind = "L" /\ r.kind = "plain" THEN os[h][r.t]   \* (harness kernel: plain threads only)
                         ELSE DefaultOs(hw[h])
         LastVal(h, kd) == IF h = r.h THEN PinnedTo(ToSet(kd.gset)) ELSE Unpinned
     IN
